@@ -128,7 +128,7 @@ Fixpoint replay (c : cfg) (sch : list act) (s : st) : option st :=
   end.
 
 (* what ptt.SetupNewUser in the tree does now *)
-Definition code_rechecks : bool := false.
+Definition code_rechecks : bool := true.
 
 (* ------------------------------------------------------------------ wire *)
 (* length-prefixed byte strings: n b1 .. bn n b1 .. bn ... *)
